@@ -8,6 +8,7 @@ from .. import model as M
 from .. import primcheck as PC
 from ..core import Report
 from ..spec import ptable as P
+from . import common
 from .common import TRUSTED_WIRE, require_no_errors, wire_results
 
 META = {
@@ -135,39 +136,40 @@ def run(rep: Report) -> None:
     if not require_no_errors(rep, cks):
         return
     by = {ck.cfg: ck for ck in cks}
-    n = 0
-    for ck in cks:
-        cfg = ck.cfg
-        if cfg.link_cls != "LinkWithVsl" or cfg.init != "engine" or cfg.engine_arg != "explicit":
-            continue
-        plain = by.get(replace(cfg, link_cls="Link"))
-        if plain is None:
-            continue
-        n += 1
-        ok, detail = True, ""
-        for p in ck.paths:
-            q = next((x for x in plain.paths if x.path == p.path), None)
-            if q is None or p.raised or q.raised:
-                ok, detail = False, "a path raises or has no plain-link counterpart"
-                break
-            nz = M.make_normalizer(cfg)
-            env = E.Env(p.n1)
-            mapping, _ = M.assumption_substitution(p.assumptions, nz)
-            mapping = dict(mapping)
-            mapping[("w", "v_ctrl", "SELF", "vsl")] = INFV
-            for role, vs in q.outputs.items():
-                for var, t in vs.items():
-                    got = p.outputs.get(role, {}).get(var)
-                    if got is None:
-                        ok, detail = False, f"no next {var} of {role}"
-                        continue
-                    try:
-                        mm = M.compare(got, t, env, nz, mapping)
-                    except E.ShapeError as ex:
-                        mm = [("shape", str(ex), "")]
-                    if mm:
-                        ok, detail = False, (f"next {var} of {role} at {mm[0][0]}: with infinite limits = "
-                                             f"{mm[0][1][:250]} | plain link = {mm[0][2][:250]}")
-        rep.check(ok, "vsl-link-equals-plain-link", cfg.label(), "LinkWithVsl", detail,
-                  key=f"vsl-plain|{cfg.u_origin}|{cfg.d_dest}|{cfg.impl}")
+    items = [ck.cfg for ck in cks if ck.cfg.link_cls == "LinkWithVsl" and ck.cfg.init == "engine"
+             and ck.cfg.engine_arg == "explicit" and replace(ck.cfg, link_cls="Link") in by]
+    common.apply_verdicts(rep, common.pmap(_vsl_pair_one, items, shared={"by": by}))
+    n = len(items)
     rep.floor("paired VSL/plain configurations", n, 300)
+
+
+def _vsl_pair_one(cfg):
+    by = common.SHARED["by"]
+    ck, plain = by[cfg], by[replace(cfg, link_cls="Link")]
+    ok, detail = True, ""
+    for p in ck.paths:
+        q = next((x for x in plain.paths if x.path == p.path), None)
+        if q is None or p.raised or q.raised:
+            ok, detail = False, "a path raises or has no plain-link counterpart"
+            break
+        nz = M.make_normalizer(cfg)
+        env = E.Env(p.n1)
+        mapping, _ = M.assumption_substitution(p.assumptions, nz)
+        M.apply_assumptions(nz, p.assumptions, env, mapping)
+        mapping = dict(mapping)
+        mapping[("w", "v_ctrl", "SELF", "vsl")] = E.INF
+        for role, vs in q.outputs.items():
+            for var, t in vs.items():
+                got = p.outputs.get(role, {}).get(var)
+                if got is None:
+                    ok, detail = False, f"no next {var} of {role}"
+                    continue
+                try:
+                    mm = M.compare(got, t, env, nz, mapping)
+                except E.ShapeError as ex:
+                    mm = [("shape", str(ex), "")]
+                if mm:
+                    ok, detail = False, (f"next {var} of {role} at {mm[0][0]}: with infinite limits = "
+                                         f"{mm[0][1][:250]} | plain link = {mm[0][2][:250]}")
+    return (ok, "vsl-link-equals-plain-link", cfg.label(), "LinkWithVsl", detail,
+            f"vsl-plain|{cfg.u_origin}|{cfg.d_dest}|{cfg.impl}")
